@@ -587,10 +587,26 @@ package keeper
 //@   inline
 //@   invariant #1 inv: endBlockInv
 //@ end
+// Opening a batch (C08): one request per selected provider, and the context record starts the new batch from a clean
+// slate - counter advanced by one, batch running, no response counted yet, as many requests as providers, the context's
+// response threshold - so that "all answered" and the threshold are judged on this batch alone.
 //@ func Keeper.InitiateRequests
-//@   inline
+//@   property C08, C13
+//@   returns ids
+//@   requires height >= 0 && endBlockInv
+//@   let c0 = CTX(requestContextID)
+//@   modifies requests, contexts, activeByID, activeByB, volumes
 //@   invariant #1 inv: endBlockInv
 //@   invariant #1 idx: rangeindex >= 0 - 1 && rangeindex < len(providers)
+//@   invariant #1 ctx: contexts == old(contexts)
+//@   ensures batch_opened: old(has(contexts, requestContextID)) ==> has(contexts, requestContextID) && CTX(requestContextID).BatchCounter == (c0.BatchCounter + 1) mod 18446744073709551616
+//@                         && CTX(requestContextID).BatchState == types.BATCHRUNNING && CTX(requestContextID).BatchResponseCount == 0
+//@                         && CTX(requestContextID).BatchRequestCount == len(providers) mod 4294967296
+//@                         && CTX(requestContextID).BatchResponseThreshold == c0.ResponseThreshold
+//@                         && CTX(requestContextID).State == c0.State && CTX(requestContextID).Consumer == c0.Consumer && CTX(requestContextID).ServiceName == c0.ServiceName
+//@   ensures others_kept: forall i:Bytes :: i != requestContextID ==> has(contexts, i) == old(has(contexts, i)) && CTX(i) == old(CTX(i))
+//@   ensures keeps: endBlockInv
+//@   nopanic C13
 //@ end
 
 // pausing a context for lack of funds: the context record is rewritten and the owning module (if any) is told through its
